@@ -1,6 +1,8 @@
 import Genq.Props.C05
 open Genq.Files
+open Genq
 #print axioms C05_all_reach_validator
 #print axioms C05_reject
 #print axioms C05_unknown_file_type_rejected
 #print axioms C05_selected_marker
+#print axioms C05_parse_tie
